@@ -148,6 +148,7 @@ type unitResult struct {
 	Opaque     []string          `json:"opaque"`
 	Slots      int               `json:"slots"`
 	Err        string            `json:"err,omitempty"`
+	Partial    bool              `json:"partial,omitempty"` // more results of the same unit follow
 }
 
 type unit struct {
@@ -161,6 +162,9 @@ type unit struct {
 	DepthLim []int  `json:"depthlim"`
 	Skip     []int  `json:"skip"` // case ids that killed a previous worker: not executed again
 	Cost     int    `json:"cost"`
+	Corpus   string `json:"corpus,omitempty"`    // hostile: "base" (zero value, populated default, real values) | "dev" (+ all values with <= MaxDev deviations)
+	Reduce   bool   `json:"reduce,omitempty"`    // hostile: skip the interior of long string payloads (see positions)
+	StartEnc int    `json:"start_enc,omitempty"` // hostile: corpus encodings of this shard already completed by a worker that died since
 	// replay of one recorded case
 	TypeName string `json:"type_name,omitempty"`
 	InputHex string `json:"input_hex,omitempty"`
@@ -168,6 +172,9 @@ type unit struct {
 }
 
 type executor struct {
+	emit   func(*unitResult)
+	unitID int
+	encIdx int
 	reg    *registry
 	roots  []root
 	mark   *marker
@@ -180,6 +187,10 @@ type executor struct {
 	batch     []batchCase
 	lastAlloc uint64
 	ms        runtime.MemStats
+
+	lastPairRoot  *root
+	lastPairEntry string
+	lastPairKey   string
 }
 
 type batchCase struct {
@@ -192,11 +203,29 @@ type batchCase struct {
 
 func newExec(reg *registry, roots []root, mark *marker, u *unit) *executor {
 	x := &executor{reg: reg, roots: roots, mark: mark, vidx: map[string]*violationRec{}, skip: map[int]bool{}, seen: map[uint64]struct{}{}}
-	x.res = &unitResult{Unit: u.ID, Counters: map[string]int{}, Pairs: map[string]int{}, Outcomes: map[string]int{}, Observed: map[string]string{}}
+	x.unitID = u.ID
+	x.fresh()
 	for _, s := range u.Skip {
 		x.skip[s] = true
 	}
 	return x
+}
+
+func (x *executor) fresh() {
+	x.res = &unitResult{Unit: x.unitID, Counters: map[string]int{}, Pairs: map[string]int{}, Outcomes: map[string]int{}, Observed: map[string]string{}}
+	x.vidx = map[string]*violationRec{}
+	x.seen = map[uint64]struct{}{}
+	x.lastPairRoot = nil
+}
+
+// checkpoint sends what has been found so far to the coordinator (so that it survives the death of this worker)
+// and starts a fresh result.
+func (x *executor) checkpoint() {
+	x.flushBatch()
+	x.res.Counters["distinct_encodings"] = len(x.seen)
+	x.res.Partial = true
+	x.emit(x.res)
+	x.fresh()
 }
 
 func (x *executor) violation(key, what string, replay interface{}) {
@@ -241,10 +270,17 @@ func errClass1(s string) string {
 	if i := strings.Index(s, ", decoding into"); i >= 0 {
 		s = s[:i]
 	}
+	keep := ""
+	for _, p := range []string{"reflect.Set: ", "runtime error: "} {
+		if strings.HasPrefix(s, p) {
+			keep, s = p, s[len(p):]
+		}
+	}
 	s = reQuoted.ReplaceAllString(s, "Q")
 	s = reType.ReplaceAllString(s, "T")
 	s = reHex.ReplaceAllString(s, "H")
 	s = reNum.ReplaceAllString(s, "N")
+	s = keep + s
 	if len(s) > 100 {
 		s = s[:100]
 	}
@@ -424,19 +460,32 @@ func (x *executor) flushBatch() {
 	x.lastAlloc = x.totalAlloc()
 }
 
+func (x *executor) pairCount(r *root, ep string) {
+	if x.lastPairRoot != r || x.lastPairEntry != ep {
+		x.lastPairRoot, x.lastPairEntry = r, ep
+		k := r.Name + " | " + ep
+		if _, ok := x.res.Pairs[k]; !ok {
+			x.res.Pairs[k] = 0
+		}
+		x.lastPairKey = k
+	}
+	x.res.Pairs[x.lastPairKey]++
+}
+
 func (x *executor) hostile(r *root, ep string, fn decodeFn, class string, in []byte) {
 	x.caseID++
-	if x.skip[x.caseID] {
+	id := x.encIdx<<24 | x.caseID
+	if x.skip[id] {
 		x.res.Counters["cases_skipped_killer"]++
 		return
 	}
-	x.mark.set(x.caseID, r.Name, ep, class, in)
+	x.mark.set(id, r.Name, ep, class, in)
 	var q reflect.Value
 	var err error
 	c := guard(func() { q, err = fn(in) })
 	x.res.Counters["hostile_decodes"]++
 	x.res.Counters["hostile:"+class]++
-	x.res.Pairs[r.Name+" | "+ep]++
+	x.pairCount(r, ep)
 	x.batch = append(x.batch, batchCase{r, ep, fn, in, class})
 	if len(x.batch) >= 32 {
 		x.flushBatch()
@@ -475,29 +524,37 @@ func (x *executor) acceptedValue(r *root, ep string, q reflect.Value, in []byte)
 	fn := makeEntry(r.T, ep)
 	var q2 reflect.Value
 	c = guard(func() { q2, err = fn(e1) })
-	replay := map[string]interface{}{"phase": "hostile-accepted", "type": r.Name, "entry": ep, "input": hexOf(in), "reencoded": hexOf(e1)}
+	replay := func() interface{} {
+		return map[string]interface{}{"phase": "hostile-accepted", "type": r.Name, "entry": ep, "input": hexOf(in), "reencoded": hexOf(e1)}
+	}
 	x.res.Counters["accepted_value_roundtrips"]++
 	if c.panicked {
-		x.violation("decode-panic:"+c.site+":"+errClass(fmt.Sprint(c.val)), fmt.Sprintf("%s via %s panics on the re-encoding of a decoded value: %v", r.Name, ep, c.val), replay)
+		x.violation("decode-panic:"+c.site+":"+errClass(fmt.Sprint(c.val)), fmt.Sprintf("%s via %s panics on the re-encoding of a decoded value: %v", r.Name, ep, c.val), replay())
 		return
 	}
 	if err != nil {
-		x.violation("roundtrip-decode-error:"+errClass(err.Error()), fmt.Sprintf("%s via %s: value decoded from %s re-encodes to %s which does not decode: %v", r.Name, ep, hexOf(in), hexOf(e1), err), replay)
+		x.violation("roundtrip-decode-error:"+errClass(err.Error()), fmt.Sprintf("%s via %s: value decoded from %s re-encodes to %s which does not decode: %v", r.Name, ep, hexOf(in), hexOf(e1), err), replay())
 		return
 	}
 	if m := diff(q.Elem(), q2.Elem(), r.Name); m != nil {
-		x.violation("roundtrip-mismatch:"+m.Leaf, fmt.Sprintf("%s via %s: value decoded from hostile input does not survive a round trip at %s: %s", r.Name, ep, m.Path, m.What), replay)
+		x.violation("roundtrip-mismatch:"+m.Leaf, fmt.Sprintf("%s via %s: value decoded from hostile input does not survive a round trip at %s: %s", r.Name, ep, m.Path, m.What), replay())
 		return
 	}
 	var e2 []byte
 	c = guard(func() { e2, err = encodeFor(ep, q2) })
 	if c.panicked || err != nil || !bytes.Equal(e1, e2) {
-		x.violation("reencode-differs:hostile-accepted", fmt.Sprintf("%s via %s: enc(dec(enc(v))) != enc(v) for v decoded from %s", r.Name, ep, hexOf(in)), replay)
+		x.violation("reencode-differs:hostile-accepted", fmt.Sprintf("%s via %s: enc(dec(enc(v))) != enc(v) for v decoded from %s", r.Name, ep, hexOf(in)), replay())
 	}
 }
 
+func mustEnc(ep string, p reflect.Value) []byte {
+	var e []byte
+	guard(func() { e, _ = encodeFor(ep, p) })
+	return e
+}
+
 // corpus: the distinct encodings (for entry point ep) of all values of r with <= maxDev deviations, plus real values.
-func (x *executor) corpus(r *root, ep string, maxDev int, depthLim []int, f func(idx int, e []byte)) {
+func (x *executor) corpus(r *root, ep string, withDev bool, maxDev int, depthLim []int, f func(idx int, e []byte)) {
 	seen := map[string]bool{}
 	idx := 0
 	emit := func(p reflect.Value) {
@@ -511,15 +568,25 @@ func (x *executor) corpus(r *root, ep string, maxDev int, depthLim []int, f func
 		f(idx, e)
 		idx++
 	}
-	// the zero value first (shortest encodings), then the populated default and its deviations
-	emit(reflect.New(r.T))
+	// base corpus: the zero value (shortest encodings), the values built with the repository's constructors, the
+	// populated default. dev corpus: every value with 1..maxDev deviations whose encoding is not in the base corpus.
+	def, _, _ := buildValue(x.reg, r.T, nil)
+	base := append(append([]reflect.Value{reflect.New(r.T)}, realValues(r.T)...), def)
+	if !withDev {
+		for _, p := range base {
+			emit(p)
+		}
+		return
+	}
+	for _, p := range base {
+		seen[string(mustEnc(ep, p))] = true
+	}
 	explore(x.reg, r.T, maxDev, depthLim, 0, 1, func(p reflect.Value, c *chooser, ndev int) bool {
-		emit(p)
+		if ndev > 0 {
+			emit(p)
+		}
 		return true
 	})
-	for _, p := range realValues(r.T) {
-		emit(p)
-	}
 }
 
 func (x *executor) run(u *unit) *unitResult {
@@ -567,15 +634,24 @@ func (x *executor) run(u *unit) *unitResult {
 		r := &x.roots[u.Root]
 		fn := makeEntry(r.T, u.Entry)
 		items := hostileItems()
-		x.corpus(r, u.Entry, u.MaxDev, u.DepthLim, func(idx int, e []byte) {
+		mine := 0
+		x.corpus(r, u.Entry, u.Corpus == "dev", u.MaxDev, u.DepthLim, func(idx int, e []byte) {
 			if idx%u.NShards != u.Shard {
 				return
 			}
+			mine++
+			if mine <= u.StartEnc {
+				return // completed (and reported) before a worker death
+			}
+			x.encIdx, x.caseID = mine, 0
+			defer x.checkpoint()
 			x.res.Counters["corpus_encodings"]++
 			x.distinct(e)
-			if !mutations(x.reg, e, items, func(class string, in []byte) { x.hostile(r, u.Entry, fn, class, in) }) {
+			ok, skipped := mutations(x.reg, e, items, u.Reduce, func(class string, in []byte) { x.hostile(r, u.Entry, fn, class, in) })
+			if !ok {
 				x.res.Counters["corpus_encodings_not_item_parsable"]++
 			}
+			x.res.Counters["long_payload_interior_offsets_not_mutated"] += skipped
 		})
 	case "short":
 		r := &x.roots[u.Root]
